@@ -197,7 +197,7 @@ func (x *c03Ctx) checkState(what string, st *NomsBlockStore, o c03Opened, at int
 			if got != sum || has != "true" {
 				rt.Fatalf("%s: chunk %s (%s, durable since ack #%d) Has=%s Get=%s, want true / %s", what, verifJShort(a), c.desc, c.commit+1, has, got, sum)
 			}
-		case c.commit < 0:
+		case c.commit < 0 && h.memSz == 0:
 			if got != "absent" || has != "false" {
 				rt.Fatalf("%s: chunk %s (%s) was never persisted but Has=%s Get=%s", what, verifJShort(a), c.desc, has, got)
 			}
@@ -236,12 +236,17 @@ func (x *c03Ctx) mustClose(what string, st *NomsBlockStore) {
 
 // afterRecovery: journal on disk must be exactly J[:keep]; then a second open must show the
 // same view and leave the journal alone; optionally write one more commit and reopen.
-func (x *c03Ctx) afterRecovery(what string, first c03Opened, keep int64, at int64, extended bool) {
+func (x *c03Ctx) afterRecovery(what string, first c03Opened, keep int64, at int64, level int) {
+	extended := level >= 2
 	h, rt, dir := x.h, x.rt, x.imgDir
 	got := verifJReadFile(verifJJournalPath(dir))
 	if !bytes.Equal(got, h.J[:keep]) {
 		rt.Fatalf("%s: after recovery+Close the journal has %d bytes, want exactly the first %d bytes of the recorded journal (end of last complete record); equal-prefix=%v", what, len(got), keep, len(got) >= int(keep) && bytes.Equal(got[:keep], h.J[:keep]))
 	}
+	if level < 1 {
+		return
+	}
+	x.class("reopened_after_recovery")
 	st, second, err := x.openAndRead(dir)
 	if err != nil {
 		rt.Fatalf("%s: second open of the recovered directory failed: %v", what, err)
@@ -297,14 +302,20 @@ func (x *c03Ctx) afterRecovery(what string, first c03Opened, keep int64, at int6
 	x.mustClose(what+" (third open)", st3)
 }
 
-func (x *c03Ctx) prefixImage(cut int64, tail, idxKind int, extended bool) {
+func (x *c03Ctx) prefixImage(cut int64, tail, idxKind int, level int) {
 	h, rt := x.h, x.rt
 	r := verifJMix(x.seed, uint64(cut)*64+uint64(tail)*8+uint64(idxKind))
 	man, snapIdx := x.manifestFor(cut, r)
 	idx := x.idxFor(idxKind, snapIdx, r)
 	tb := x.tailBytes(cut, tail)
 	img := append(append([]byte{}, h.J[:cut]...), tb...)
-	what := fmt.Sprintf("prefix image cut=%d/%d tail=%s(%dB) idx=%s(%dB) manifest@step%d(%s)", cut, len(h.J), c03TailNames[tail], len(tb), c03IdxNames[idxKind], len(idx), snapIdx, h.snaps[snapIdx].op)
+	// tail bytes that happen to equal the recorded journal's next bytes (a zero byte completing
+	// a checksum, say) belong to the prefix: the image is the same as one cut later
+	cut0 := cut
+	for cut < int64(len(h.J)) && cut < int64(len(img)) && img[cut] == h.J[cut] {
+		cut++
+	}
+	what := fmt.Sprintf("prefix image cut=%d(+%d tail bytes equal to the recorded journal)/%d tail=%s(%dB) idx=%s(%dB) manifest@step%d(%s)", cut0, cut-cut0, len(h.J), c03TailNames[tail], len(tb), c03IdxNames[idxKind], len(idx), snapIdx, h.snaps[snapIdx].op)
 	if err := verifJWriteImage(x.imgDir, img, man, idx); err != nil {
 		vh.Inconclusive(rt, "cannot write image: %v", err)
 	}
@@ -318,7 +329,10 @@ func (x *c03Ctx) prefixImage(cut int64, tail, idxKind int, extended bool) {
 	x.checkState(what, st, first, cut)
 	x.mustClose(what, st)
 	keep := h.floorBoundary(cut)
-	x.afterRecovery(what, first, keep, cut, extended)
+	x.afterRecovery(what, first, keep, cut, level)
+	if level >= 2 {
+		x.class("wrote_after_recovery")
+	}
 	// non-triviality bookkeeping
 	_, ackIdx := h.expectedRootAt(cut)
 	if keep > h.acks[ackIdx].size && cut > keep {
@@ -368,6 +382,9 @@ func (x *c03Ctx) holeImage(ri int, damage int, end int64, tail int) {
 	}
 	tb := x.tailBytes(end, tail)
 	img = append(img, tb...)
+	for end < int64(len(h.J)) && end < int64(len(img)) && img[end] == h.J[end] {
+		end++
+	}
 	man, snapIdx := x.manifestFor(end, r)
 	idxKind := r.intn(c03NIdx)
 	idx := x.idxFor(idxKind, snapIdx, r)
@@ -432,7 +449,7 @@ func (x *c03Ctx) holeImage(ri int, damage int, end int64, tail int) {
 	}
 	x.checkState(what, st, first, rc.off)
 	x.mustClose(what, st)
-	x.afterRecovery(what, first, rc.off, rc.off, false)
+	x.afterRecovery(what, first, rc.off, rc.off, int(r.next()%3)/2)
 }
 
 func c03Case(rt *rapid.T, rec *vh.Recorder, base string) {
@@ -440,7 +457,8 @@ func c03Case(rt *rapid.T, rec *vh.Recorder, base string) {
 	dir := filepath.Join(base, "hist")
 	_ = os.RemoveAll(dir)
 	defer os.RemoveAll(dir)
-	cfg := verifJHistCfg{minOps: 6, maxOps: vh.N(26, 40), maxNovels: []int{1, 2, 4, 16, 0}, bigChunks: vh.Thorough()}
+	cfg := verifJHistCfg{minOps: 6, maxOps: vh.N(26, 40), maxNovels: []int{1, 2, 4, 16, 0}, bigChunks: vh.Thorough(), smallMemtable: true}
+	defer verifJWithBufSize(rapid.SampledFrom(verifJBufSizes).Draw(rt, "journalWriterBuffSize"))()
 	h := verifJBuildHistory(rt, dir, cfg)
 	x := &c03Ctx{rt: rt, h: h, imgDir: filepath.Join(base, "img"), classes: map[string]int{}, recEnd: map[hash.Hash]int64{}}
 	defer os.RemoveAll(x.imgDir)
@@ -494,10 +512,17 @@ func c03Case(rt *rapid.T, rec *vh.Recorder, base string) {
 		vr := verifJMix(x.seed, uint64(c)+1)
 		tail := vr.intn(c03NTails)
 		idxKind := vr.intn(c03NIdx)
-		x.prefixImage(c, tail, idxKind, (i+plan)%9 == 0)
+		level := 0
+		switch (i + plan) % 9 {
+		case 0:
+			level = 2
+		case 3, 6:
+			level = 1
+		}
+		x.prefixImage(c, tail, idxKind, level)
 		if vh.Thorough() || c == h.floorBoundary(c) {
 			// boundaries get a second variant pair
-			x.prefixImage(c, (tail+1+vr.intn(c03NTails-1))%c03NTails, (idxKind+1+vr.intn(c03NIdx-1))%c03NIdx, false)
+			x.prefixImage(c, (tail+1+vr.intn(c03NTails-1))%c03NTails, (idxKind+1+vr.intn(c03NIdx-1))%c03NIdx, 0)
 		}
 	}
 
@@ -548,7 +573,10 @@ func c03Case(rt *rapid.T, rec *vh.Recorder, base string) {
 		rec.Class(c, k)
 		_ = k
 	}
-	cl = append(cl, fmt.Sprintf("maxNovel=%d", h.maxNovel), fmt.Sprintf("acks=%s", c03Bucket(len(h.acks))))
+	cl = append(cl, fmt.Sprintf("maxNovel=%d", h.maxNovel), fmt.Sprintf("acks=%s", c03Bucket(len(h.acks))), fmt.Sprintf("bufSz=%d", h.bufSz))
+	if h.memSz > 0 {
+		cl = append(cl, "small_memtable")
+	}
 	if h.reopens > 0 {
 		cl = append(cl, "has_reopen")
 	}
